@@ -14,6 +14,9 @@
  *        one object through DumpObjects + DumpModifiedAttributes -> fresh process -> same config ->
  *        RestoreObjects + ActivateItems(withModAttrs); state = Serialize(obj, FAState) without `version`,
  *        cfg = Serialize(obj, FAConfig) + original_attributes + version
+ *        spec keys: kind, name, vars, notes, st (state), mods [[attr, value]..] (runtime modifications), restore [attr..]
+ *        (restored again after a first complete dump: the dump that counts is the second one), deep n (executions nested n deep)
+ *   B <batch> <objects> <bytes of the state file>                information only
  *   W <kind> <cseed> | <n> <call:t|T>...                        the intercepted calls of one complete write
  *        (t = on the temp file, T = names the target path)
  *   K <kind> <cseed> <k> <b|p> | <call> <found>                 kill inside the k-th intercepted call (b = before it
@@ -648,6 +651,12 @@ static void ApplyState(const Checkable::Ptr& c, const Dictionary::Ptr& st)
 	Value ex = st->Get("executions");
 	if (ex.IsObjectType<Dictionary>())
 		{ Dictionary::Ptr d = ex.Clone(); c->SetExecutions(d); }
+	if (st->Contains("deep")) {
+		Value v = new Array();
+		for (int i = 0, n = st->Get("deep"); i < n; i++)
+			v = new Array({ v });
+		c->SetExecutions(new Dictionary({ { "deep", v } }));
+	}
 	Value crv = st->Get("cr");
 	if (crv.IsObjectType<Dictionary>()) {
 		Dictionary::Ptr crd = crv;
@@ -680,6 +689,29 @@ static void ApplyMods(const Checkable::Ptr& c, const Array::Ptr& mods)
 		try {
 			c->ModifyAttribute(pair->Get(0), pair->Get(1).Clone());
 		} catch (const std::exception&) { }
+	}
+}
+
+static void ApplyRestores(const Checkable::Ptr& c, const Array::Ptr& restores)
+{
+	if (!restores)
+		return;
+	ObjectLock olock(restores);
+	for (const Value& r : restores) {
+		try {
+			c->RestoreAttribute(r);
+		} catch (const std::exception&) { }
+	}
+}
+
+static void DumpBoth(const std::string& statePath)
+{
+	ConfigObject::DumpObjects(statePath);
+	try {
+		IcingaApplication::Ptr app = IcingaApplication::GetInstance();
+		((*app).*get(vh::TagDumpModAttrs()))();
+	} catch (const std::exception&) {
+		/* the modified attributes are not persisted: the restart below shows it */
 	}
 }
 
@@ -767,6 +799,15 @@ static Dictionary::Ptr GenSpec(Rng& rng, int idx)
 			mods->Add(new Array({ Value("vars." + key), rng.below(100) < 35 ? GenOddNumberValue(rng) : GenValue(rng, 2, mo) }));
 		}
 		spec->Set("mods", mods);
+		if (rng.below(4) == 0 && mods->GetLength() > 0) {
+			/* some of them are restored again before the shutdown */
+			Array::Ptr restores = new Array();
+			ObjectLock olock(mods);
+			for (const Value& m : mods)
+				if (rng.coin())
+					restores->Add(static_cast<Array::Ptr>(m)->Get(0));
+			spec->Set("restore", restores);
+		}
 	}
 	return spec;
 }
@@ -894,17 +935,25 @@ static void RunSBatch(const std::vector<Dictionary::Ptr>& specs, int batchNo)
 			objs.push_back(c);
 		}
 	}
+	/* modifications restored again at run time: a complete dump happens first (as the retention timer would), the dump that
+	 * the restart reads is made after the restores */
+	bool anyRestore = false;
+	for (const auto& spec : specs)
+		anyRestore = anyRestore || spec->Contains("restore");
+	if (anyRestore) {
+		DumpBoth(statePath);
+		for (size_t i = 0; i < specs.size(); i++)
+			ApplyRestores(objs[i], specs[i]->Get("restore"));
+	}
 	std::vector<std::string> sb, cb;
 	for (const auto& c : objs) {
 		sb.push_back(J(StateOf(c)));
 		cb.push_back(J(CfgOf(c)));
 	}
-	ConfigObject::DumpObjects(statePath);
-	try {
-		IcingaApplication::Ptr app = IcingaApplication::GetInstance();
-		((*app).*get(vh::TagDumpModAttrs()))();
-	} catch (const std::exception&) {
-		/* the modified attributes are not persisted: the restart below shows it */
+	DumpBoth(statePath);
+	{
+		struct stat stt;
+		printf("B %d %zu %lld\n", batchNo, specs.size(), stat(statePath.c_str(), &stt) == 0 ? (long long)stt.st_size : -1LL);
 	}
 
 	fflush(stdout);
@@ -1382,6 +1431,37 @@ int main(int argc, char **argv)
 	/* (2) */
 	int batches = thorough ? 10 : 2;
 	int idx = 0;
+	{
+		/* every modification of the whole process is restored again before the shutdown: the second dump has nothing to write */
+		std::vector<Dictionary::Ptr> specs;
+		for (int i = 0; i < 4; i++) {
+			Dictionary::Ptr spec = new Dictionary({ { "kind", i % 2 ? "s" : "h" }, { "name", "vr" + Convert::ToString(i) }, { "notes", "n" },
+				{ "vars", new Dictionary({ { "a", "s" }, { "b", (double)i }, { "c", Empty }, { "d", "" } }) },
+				{ "st", new Dictionary({ { "state_raw", 2.0 }, { "state_type", 1.0 }, { "check_attempt", 1.0 } }) } });
+			Array::Ptr mods = new Array(), restores = new Array();
+			const char *keys[] = { "vars.a", "vars.b", "vars.c", "vars.d", "notes" };
+			for (int k = 0; k < 5; k++) {
+				if (rng.below(3) == 0 && k > 0)
+					continue;
+				mods->Add(new Array({ Value(keys[k]), Value(k == 4 ? Value("m") : GenValue(rng, 1, GenOpts())) }));
+				restores->Add(keys[k]);
+			}
+			spec->Set("mods", mods);
+			spec->Set("restore", restores);
+			specs.push_back(spec);
+		}
+		RunSBatch(specs, 900);
+	}
+	{
+		/* state nested up to, at and beyond the limit of the JSON decoder (frame depth = n + 4) */
+		std::vector<Dictionary::Ptr> specs;
+		int depths[] = { 10, 995, 996, 997 };
+		for (int i = 0; i < 4; i++)
+			specs.push_back(new Dictionary({ { "kind", "h" }, { "name", "vd" + Convert::ToString(i) }, { "notes", "n" },
+				{ "vars", new Dictionary({ { "a", "s" } }) },
+				{ "st", new Dictionary({ { "state_raw", 1.0 }, { "state_type", 1.0 }, { "check_attempt", 2.0 }, { "deep", (double)depths[i] } }) } }));
+		RunSBatch(specs, 901);
+	}
 	for (int b = 0; b < batches; b++) {
 		std::vector<Dictionary::Ptr> specs;
 		for (int i = 0; i < 150; i++)
